@@ -118,6 +118,18 @@ type sop struct {
 	A    []uint32 `json:"a,omitempty"`    // argument set (iteration order) / added elements
 	D    []uint32 `json:"d,omitempty"`    // deleted elements of Apply/Compute
 	Self string   `json:"self,omitempty"` // "", "set" (the set itself is the argument) or "readonly" (its ReadOnly view)
+	// DSelf: the deleted elements of Apply/Compute ARE the receiver (WithDeletedElements(set)); D is ignored
+	DSelf bool `json:"dself,omitempty"`
+}
+
+// overlaps: Apply/Compute whose added and deleted elements share an element.
+func (o sop) overlaps() bool {
+	for _, e := range o.A {
+		if contains(o.D, e) {
+			return true
+		}
+	}
+	return false
 }
 
 func (o sop) String() string {
@@ -138,6 +150,9 @@ func (o sop) String() string {
 	case "AddAll", "DeleteAll", "Replace":
 		return fmt.Sprintf("%s(%s)", o.K, arg)
 	case "Apply", "Compute":
+		if o.DSelf {
+			return fmt.Sprintf("%s(+%s -self)", o.K, f(o.A))
+		}
 		return fmt.Sprintf("%s(+%s -%s)", o.K, f(o.A), f(o.D))
 	}
 	return o.K
@@ -154,8 +169,14 @@ func (o sop) class() string {
 			return o.K + "(empty)"
 		}
 	case "Apply", "Compute":
+		if o.DSelf {
+			return o.K + "(deleted=self)"
+		}
 		if len(o.A) == 0 && len(o.D) == 0 {
 			return o.K + "(empty)"
+		}
+		if o.overlaps() {
+			return o.K + "(overlap)"
 		}
 	}
 	return o.K
@@ -306,13 +327,16 @@ func (w *setWorld) apply(o sop, full bool) (string, string) {
 			}
 		case "Apply", "Compute":
 			argA, argD := w.cache.get(o.A), w.cache.get(o.D)
+			if o.DSelf {
+				argD = w.s
+			}
 			var mut ds.SetMutations[uint32] = &mutations{a: argA, d: argD}
 			if w.algebraDone == nil { // long random histories and replays use hive.go's own SetMutations value
 				mut = ds.NewSetMutations[uint32]().WithAddedElements(argA).WithDeletedElements(argD)
 			}
 			var ret ds.SetMutations[uint32]
 			defer func() {
-				if argA.Size() != len(o.A) || argD.Size() != len(o.D) {
+				if argA.Size() != len(o.A) || (!o.DSelf && argD.Size() != len(o.D)) {
 					bad("argument-mutated", "%s changed the mutation sets it was given", o.K)
 				}
 			}()
@@ -332,21 +356,100 @@ func (w *setWorld) apply(o sop, full bool) (string, string) {
 					bad("factory-view", "Compute's factory saw %v, set was %v", seen, before)
 				}
 			}
-			var wantA, wantD []uint32
-			for _, e := range o.A {
-				if w.modelAdd(e) {
-					wantA = append(wantA, e)
+			// The statement does not fix whether one Apply processes its additions or its deletions first (it only
+			// matters when both name the same element), nor whether an argument that aliases the receiver is read
+			// live or from a snapshot: every such sequential reading is accepted, the call has to agree with ONE of
+			// them in contents, order and returned mutations. Disjoint mutations have a single reading.
+			type reading struct {
+				name               string
+				after, added, gone []uint32
+			}
+			read := func(name string, d []uint32, delFirst bool) reading {
+				r := reading{name: name, after: append([]uint32{}, before...)}
+				add := func() {
+					for _, e := range o.A {
+						if !contains(r.after, e) {
+							r.after, r.added = append(r.after, e), append(r.added, e)
+						}
+					}
+				}
+				del := func() {
+					for _, e := range d {
+						if contains(r.after, e) {
+							r.after, r.gone = without(r.after, e), append(r.gone, e)
+						}
+					}
+				}
+				if delFirst {
+					del()
+					add()
+				} else {
+					add()
+					del()
+				}
+				return r
+			}
+			var readings []reading
+			if o.DSelf {
+				live := append([]uint32{}, before...)
+				for _, e := range o.A {
+					if !contains(live, e) {
+						live = append(live, e)
+					}
+				}
+				readings = []reading{read("additions first, deleted set read live", live, false), read("additions first, deleted set read up front", before, false), read("deletions first", before, true)}
+			} else {
+				readings = []reading{read("additions first", o.D, false)}
+				if o.overlaps() {
+					readings = append(readings, read("deletions first", o.D, true))
 				}
 			}
-			for _, e := range o.D {
-				if w.modelDelete(e) {
-					wantD = append(wantD, e)
+			// "exactly the elements whose membership changed": the net change of the call is as good an answer as the
+			// step-by-step one (an element added and deleted again by the same call)
+			for _, r := range readings[:len(readings):len(readings)] {
+				net := reading{name: r.name + ", net changes reported", after: r.after}
+				for _, e := range r.added {
+					if !contains(r.gone, e) {
+						net.added = append(net.added, e)
+					}
+				}
+				for _, e := range r.gone {
+					if !contains(r.added, e) {
+						net.gone = append(net.gone, e)
+					}
+				}
+				if len(net.added) != len(r.added) {
+					readings = append(readings, net)
 				}
 			}
 			gotA, gotD := ret.AddedElements().ToSlice(), ret.DeletedElements().ToSlice()
-			if !eqAsSets(gotA, wantA) || !eqAsSets(gotD, wantD) {
-				bad("returned-mutations", "%s(+%v -%v) on %v returned +%v -%v, membership actually changed: +%v -%v", o.K, o.A, o.D, before, gotA, gotD, wantA, wantD)
+			now := w.s.ToSlice()
+			pick := -1
+			for i, r := range readings { // diffs and contents explained by the same reading
+				if pick < 0 && eqAsSets(gotA, r.added) && eqAsSets(gotD, r.gone) && eqSlice(now, r.after) {
+					pick = i
+				}
 			}
+			for i, r := range readings { // diffs explained: the state comparison below reports the contents
+				if pick < 0 && eqAsSets(gotA, r.added) && eqAsSets(gotD, r.gone) {
+					pick = i
+				}
+			}
+			if pick < 0 {
+				// no reading explains the returned mutations; follow the contents if some reading explains those
+				for i, r := range readings {
+					if eqSlice(now, r.after) {
+						pick = i
+						break
+					}
+				}
+				r0 := readings[0]
+				bad("returned-mutations", "%s on %v returned +%v -%v and left %v; membership changes under the reading '%s': +%v -%v leaving %v (%d readings tried)", o, before, gotA, gotD, now, r0.name, r0.added, r0.gone, r0.after, len(readings))
+				if pick < 0 {
+					pick = 0
+				}
+			}
+			w.order = readings[pick].after
 			if ret.IsEmpty() != (len(gotA) == 0 && len(gotD) == 0) {
 				bad("returned-mutations-isempty", "returned mutations IsEmpty()=%v with +%v -%v", ret.IsEmpty(), gotA, gotD)
 			}
@@ -594,6 +697,11 @@ func setAlphabet(uni int) []sop {
 			}
 		}
 	}
+	// mutations whose added and deleted elements overlap, or whose deleted elements are the receiver itself
+	for e := 0; e < uni; e++ {
+		a = append(a, sop{K: "Apply", A: []uint32{uint32(e)}, D: []uint32{uint32(e)}})
+	}
+	a = append(a, sop{K: "Apply", A: []uint32{1, 0}, D: []uint32{0, 2}}, sop{K: "Apply", DSelf: true}, sop{K: "Apply", A: []uint32{1}, DSelf: true}, sop{K: "Compute", A: []uint32{0}, D: []uint32{0}})
 	a = append(a, sop{K: "Clear"}, sop{K: "CloneSwap"}, sop{K: "CodecSwap"})
 	return a
 }
@@ -675,7 +783,22 @@ func randSetOp(rng *rand.Rand, uni int) sop {
 		if rng.Intn(10) == 0 {
 			a, d = nil, nil
 		}
-		return sop{K: []string{"Apply", "Compute"}[rng.Intn(2)], A: a, D: d}
+		o := sop{K: []string{"Apply", "Compute"}[rng.Intn(2)], A: a, D: d}
+		switch rng.Intn(12) {
+		case 0, 1, 2: // overlapping: some elements are both added and deleted
+			for _, e := range x {
+				if rng.Intn(2) == 0 {
+					if !contains(o.A, e) {
+						o.A = append(o.A, e)
+					} else if !contains(o.D, e) {
+						o.D = append(o.D, e)
+					}
+				}
+			}
+		case 3: // delete everything through an alias of the receiver, together with additions
+			o.D, o.DSelf = nil, true
+		}
+		return o
 	case r < 85:
 		return sop{K: "Replace", A: randSubset(rng, uni), Self: self()}
 	case r < 88:
